@@ -26,3 +26,17 @@ SPEC = dict(
 
 def run(tier, seed):
     return svlib.run_spec(SPEC, tier, seed)
+
+MANIFEST = dict(
+    claimed=True,
+    technique="Lean 4 theorem: transliteration of petgraph 0.6.5 toposort over StableGraph neighbour order proved sound, complete, "
+              "nodup, cycle-exact (incl. DFS finishing-order direction) + exact-order differential correspondence",
+    text="proof: for ALL graphs (any size, parallel edges, self-loops, any insertion order) the model of compilation_order "
+         "returns an order listing every package exactly once with every dependency before its dependents when the graph is "
+         "acyclic (acyclic_imp_ok, toposort_ok_sound, order_nodup, order_complete) and an error when it is cyclic "
+         "(cyclic_imp_error); fuel proved sufficient. Tied to the code by exact-order comparison with the real "
+         "forc_pkg::compilation_order on 30k (quick) / 600k (thorough) random graphs; the proved checker isTopoOrder / "
+         "hasCycle is evaluated on the real output.",
+    note="trusted: Lean kernel + 3 standard axioms; petgraph is an external crate: its algorithm is modelled by hand and tied "
+         "by correspondence only; error text (kosaraju path rendering) and Pinned payloads not modelled; harness generator.",
+)
